@@ -584,3 +584,153 @@ func assignedFrom(info *types.Info, fd *ast.FuncDecl, obj types.Object, pos toke
 	}
 	return found
 }
+
+// Pass E (early exit folded into the mean).
+//
+//	if C { return F(X) }                 (top level, X a float64 local)
+//	…
+//	M := E                               (top level, M assigned once)
+//	return F(X - M)                      (last statement)
+//
+// becomes
+//
+//	…
+//	M := 0.
+//	if !C { M = E }
+//	return F(X - M)
+//
+// On the paths where C holds the original returns F(X); the rewritten
+// function goes on and returns F(X − 0.), and x − (+0) is x for every float64
+// (−0 − +0 = −0, NaN stays NaN), provided X and the variables of C are not
+// assigned from the early exit on (checked; function without goto, no
+// function literal assigning them). On the other paths the statements are the
+// same. Verdicts on the value returned carry over; the statements between the
+// exit and the end run on more paths in the rewritten function than in the
+// original, so a verdict that they cannot fail carries over as well.
+func (n *normalizer) earlyExitPass(fd *ast.FuncDecl) (bool, error) {
+	p := n.p
+	info := p.Info
+	if fd.Body == nil || len(fd.Body.List) < 3 {
+		return false, nil
+	}
+	list := fd.Body.List
+	last, ok := list[len(list)-1].(*ast.ReturnStmt)
+	if !ok || len(last.Results) != 1 {
+		return false, nil
+	}
+	retOf := func(e ast.Expr) (*types.Func, ast.Expr) {
+		c, ok := ast.Unparen(e).(*ast.CallExpr)
+		if !ok || len(c.Args) != 1 || c.Ellipsis.IsValid() {
+			return nil, nil
+		}
+		fn := calleeOf(info, c)
+		if fn == nil || fn.Pkg() != p.P.Types {
+			return nil, nil
+		}
+		return fn, ast.Unparen(c.Args[0])
+	}
+	f2, arg2 := retOf(last.Results[0])
+	be, ok := arg2.(*ast.BinaryExpr)
+	if f2 == nil || !ok || be.Op != token.SUB {
+		return false, nil
+	}
+	xo, _ := identObj(info, ast.Unparen(be.X)).(*types.Var)
+	mo, _ := identObj(info, ast.Unparen(be.Y)).(*types.Var)
+	if xo == nil || mo == nil {
+		return false, nil
+	}
+	isF64 := func(t types.Type) bool {
+		b, ok := t.Underlying().(*types.Basic)
+		return ok && b.Kind() == types.Float64
+	}
+	if !isF64(xo.Type()) || !isF64(mo.Type()) {
+		return false, nil
+	}
+	// M := E, top level, assigned once
+	var mdef *ast.AssignStmt
+	mi := -1
+	for i, s := range list {
+		if as, ok := s.(*ast.AssignStmt); ok && as.Tok == token.DEFINE && len(as.Lhs) == 1 && len(as.Rhs) == 1 {
+			if id, ok := as.Lhs[0].(*ast.Ident); ok && info.Defs[id] == types.Object(mo) {
+				mdef, mi = as, i
+			}
+		}
+	}
+	if mdef == nil || assignedIn(info, fd.Body, mo) {
+		return false, nil
+	}
+	// the early exit
+	for i, s := range list[:mi] {
+		ifs, ok := s.(*ast.IfStmt)
+		if !ok || ifs.Init != nil || ifs.Else != nil || len(ifs.Body.List) != 1 {
+			continue
+		}
+		rs, ok := ifs.Body.List[0].(*ast.ReturnStmt)
+		if !ok || len(rs.Results) != 1 {
+			continue
+		}
+		f1, arg1 := retOf(rs.Results[0])
+		if f1 == nil || f1 != f2 || identObj(info, arg1) != types.Object(xo) {
+			continue
+		}
+		// C: a comparison of locals and constants, all stable from here on
+		okC := true
+		ast.Inspect(ifs.Cond, func(x ast.Node) bool {
+			switch y := x.(type) {
+			case *ast.CallExpr, *ast.IndexExpr, *ast.StarExpr, *ast.SelectorExpr, *ast.FuncLit:
+				okC = false
+			case *ast.Ident:
+				if v, isVar := info.Uses[y].(*types.Var); isVar {
+					if v.Parent() == p.P.Types.Scope() || v.IsField() || assignedFrom(info, fd, v, ifs.Pos()) {
+						okC = false
+					}
+				}
+			}
+			return okC
+		})
+		if !okC || assignedFrom(info, fd, xo, ifs.Pos()) {
+			continue
+		}
+		// the uses of M lie after its definition only (it is defined there), and
+		// the definition is not inside the early exit
+		_ = i
+		ct, err := n.exprText(ifs.Cond, nil)
+		if err != nil {
+			return false, err
+		}
+		neg := "!(" + ct + ")"
+		if cb, ok := ast.Unparen(ifs.Cond).(*ast.BinaryExpr); ok {
+			inv := map[token.Token]string{token.EQL: "!=", token.NEQ: "==", token.LSS: ">=", token.GEQ: "<", token.GTR: "<=", token.LEQ: ">"}
+			if op, has := inv[cb.Op]; has {
+				isFloat := false
+				for _, side := range []ast.Expr{cb.X, cb.Y} {
+					if tv, ok := info.Types[side]; ok && tv.Type != nil {
+						if b, ok := tv.Type.Underlying().(*types.Basic); ok && b.Info()&types.IsFloat != 0 {
+							isFloat = true // NaN: only == and != negate exactly
+						}
+					}
+				}
+				if !isFloat || cb.Op == token.EQL || cb.Op == token.NEQ {
+					lt, err1 := n.exprText(cb.X, nil)
+					rt, err2 := n.exprText(cb.Y, nil)
+					if err1 == nil && err2 == nil {
+						neg = lt + " " + op + " " + rt
+					}
+				}
+			}
+		}
+		et, err := n.exprText(mdef.Rhs[0], nil)
+		if err != nil {
+			return false, err
+		}
+		if err := n.edit(ifs.Pos(), ifs.End(), ""); err != nil {
+			return false, err
+		}
+		if err := n.edit(mdef.Pos(), mdef.End(), fmt.Sprintf("%s := 0.\n\tif %s {\n\t\t%s = %s\n\t}", mo.Name(), neg, mo.Name(), et)); err != nil {
+			return false, err
+		}
+		n.notes = append(n.notes, fmt.Sprintf("E: the early exit `if %s { return %s(%s) }` is folded into `%s` (0 when the condition holds: x − 0 = x)", ct, f1.Name(), xo.Name(), mo.Name()))
+		return true, nil
+	}
+	return false, nil
+}
